@@ -106,3 +106,53 @@ Proof.
     rewrite rc_nth by (rewrite sub_length; lia). rewrite sub_length by lia.
     rewrite nth_sub by lia. f_equal. f_equal. lia.
 Qed.
+
+Lemma in_firstn {A} (x : A) n l : In x (firstn n l) -> In x l.
+Proof. intro H. rewrite <- (firstn_skipn n l). apply in_or_app. now left. Qed.
+Lemma in_skipn {A} (x : A) n l : In x (skipn n l) -> In x l.
+Proof. intro H. rewrite <- (firstn_skipn n l). apply in_or_app. now right. Qed.
+
+Lemma nth_upd {A} i j (l : list A) x d : (i < length l)%nat ->
+  nth j (upd i l x) d = if Nat.eqb j i then x else nth j l d.
+Proof.
+  intro Hi. unfold upd. assert (Hf : length (firstn i l) = i) by (rewrite firstn_length; lia).
+  destruct (Nat.eqb_spec j i) as [->|Hne].
+  - rewrite app_nth2 by lia. rewrite Hf, Nat.sub_diag. reflexivity.
+  - destruct (Nat.lt_ge_cases j i).
+    + rewrite app_nth1 by lia. now apply nth_firstn_lt.
+    + rewrite app_nth2 by lia. rewrite Hf. replace (j - i)%nat with (S (j - i - 1)) by lia. cbn [nth].
+      rewrite nth_skipn_'. f_equal. lia.
+Qed.
+Lemma firstn_upd {A} n i (l : list A) x : (i < n)%nat -> (i < length l)%nat -> firstn n (upd i l x) = upd i (firstn n l) x.
+Proof.
+  intros Hin Hi. destruct l as [|d l']; [cbn in Hi; lia|]. set (l := d :: l') in *.
+  assert (Hl1 : length (firstn n (upd i l x)) = Nat.min n (length l)) by (rewrite firstn_length, upd_length; lia).
+  assert (Hl2 : length (upd i (firstn n l) x) = Nat.min n (length l)) by (rewrite upd_length; rewrite firstn_length; lia).
+  apply (nth_ext _ _ d d); [lia|]. intros j Hj. rewrite Hl1 in Hj.
+  rewrite nth_firstn_lt by lia. rewrite !nth_upd by (rewrite ?firstn_length; lia).
+  destruct (Nat.eqb j i); [reflexivity|]. now rewrite nth_firstn_lt by lia.
+Qed.
+Lemma skipn_upd {A} n i (l : list A) x : (i < n)%nat -> (i < length l)%nat -> skipn n (upd i l x) = skipn n l.
+Proof.
+  intros Hin Hi. unfold upd. rewrite skipn_app, firstn_length. replace (Nat.min i (length l)) with i by lia.
+  rewrite skipn_all2 by (rewrite firstn_length; lia). cbn [app].
+  replace (n - i)%nat with (S (n - i - 1)) by lia. rewrite skipn_cons. rewrite skipn_skipn. f_equal. lia.
+Qed.
+Lemma Forall_upd {A} (P : A -> Prop) i (l : list A) x : Forall P l -> P x -> Forall P (upd i l x).
+Proof.
+  intros Hl Hx. unfold upd. apply Forall_app. split.
+  - apply Forall_forall. intros y Hy. rewrite Forall_forall in Hl. apply Hl. eapply in_firstn; eauto.
+  - constructor; [exact Hx|]. apply Forall_forall. intros y Hy. rewrite Forall_forall in Hl. apply Hl. eapply in_skipn; eauto.
+Qed.
+Lemma upd_app_last {A} (l : list A) y x : upd (length l) (l ++ [y]) x = l ++ [x].
+Proof. unfold upd. rewrite firstn_app_exact by reflexivity. rewrite skipn_all2 by (rewrite app_length; cbn; lia). reflexivity. Qed.
+Lemma firstn_S_upd {A} n (l : list A) x : (n < length l)%nat -> firstn (S n) (upd n l x) = firstn n l ++ [x].
+Proof.
+  intro H. unfold upd. apply firstn_S_mid. rewrite firstn_length. lia.
+Qed.
+
+Lemma app_inj_length {A} (a b c d : list A) : length a = length c -> a ++ b = c ++ d -> a = c /\ b = d.
+Proof.
+  revert c; induction a as [|x a IH]; destruct c as [|y c]; cbn; intros Hl H; try discriminate; auto.
+  injection H as -> H. destruct (IH c) as [-> ->]; auto.
+Qed.
